@@ -5,6 +5,7 @@ import (
 	"fmt"
 	"math/rand"
 	"os"
+	"sort"
 	"strings"
 
 	"google.golang.org/grpc"
@@ -204,7 +205,18 @@ func cmdForward() {
 			}
 		}
 	}
-	icptDirect(out, rng)
+	// the interceptors on their own, over the name alphabet of the scripts (which includes the
+	// names that are not empty but look empty)
+	alphabet := map[string]bool{"": true, "dflt": true}
+	for _, s := range scripts {
+		alphabet[s.Name] = true
+	}
+	names := make([]string, 0, len(alphabet))
+	for n := range alphabet {
+		names = append(names, n)
+	}
+	sort.Strings(names)
+	icptDirect(out, rng, names)
 	fmt.Fprintln(os.Stderr, "routerx forward: observations:", out.N)
 }
 
@@ -341,7 +353,7 @@ type oneShotStream struct {
 func (s *oneShotStream) RecvMsg(m any) error { proto.Merge(m.(proto.Message), s.msg); return nil }
 
 // icptDirect applies the interceptors to messages with and without a name field.
-func icptDirect(out *hx.Out, rng *rand.Rand) {
+func icptDirect(out *hx.Out, rng *rand.Rand, names []string) {
 	protos := []proto.Message{}
 	// every request type of the routed services has a name; add messages that have none
 	protos = append(protos, &wrapperspb.StringValue{Value: "x"}, &durationpb.Duration{Seconds: 3})
@@ -363,7 +375,7 @@ func icptDirect(out *hx.Out, rng *rand.Rand) {
 		}
 	}
 	for _, proto0 := range protos {
-		for _, in := range []string{"", "dev/A", "dflt"} {
+		for _, in := range names {
 			for _, via := range []string{"unary", "stream"} {
 				m := proto0.ProtoReflect().New().Interface()
 				fillRandom(m.ProtoReflect(), rng, 2)
